@@ -451,6 +451,9 @@ def _ew(f, a, b=None):
             return [_ew(f, x) for x in a]
         return f(a)
     if isinstance(a, list) and isinstance(b, list):
+        if (not a and _depth(b) <= 1 and len(b) != 0) or (not b and _depth(a) <= 1 and len(a) != 0):
+            # zero selected rows, written [], combined with one row: (0, n) op (n,) is (0, n) - still no rows
+            return []
         da, db = _depth(a), _depth(b)
         while da < db:  # broadcasting aligns trailing axes: (n,) against (m, n) is (1, n)
             a, da = [a], da + 1
